@@ -396,6 +396,18 @@ def judge(w, rules, damaging, last, prev, pre, post, res, val):
 _G = {}
 
 
+def _init_plain(st):
+    """the initial disk state of a behaviour, JSON-able (functions with record keys as pair lists)"""
+    pairs = lambda f: [[W._plain(k), W._plain(v)] for k, v in W.fdict(f).items()]
+    return {"ws": {p: pairs(f) for p, f in st["ws"].items()}, "cacheEx": dict(st["cacheEx"]), "cacheF": {p: pairs(f) for p, f in st["cacheF"].items()}}
+
+
+def _init_thaw(d):
+    from .wsfamily import _thaw
+    fn = lambda pairs: tlaparse.FrozenDict({_thaw(k): _thaw(v) for k, v in pairs})
+    return {"ws": {p: fn(x) for p, x in d["ws"].items()}, "cacheEx": d["cacheEx"], "cacheF": {p: fn(x) for p, x in d["cacheF"].items()}}
+
+
 def replay_behaviour(uni, projects, states, rules, damaging, base):
     import logging
     logging.disable(logging.CRITICAL)
@@ -437,7 +449,8 @@ def _edge_worker(chunk):
         verd = [x for x in r["verdicts"] if x[0] == len(path) - 2]
         out.append((len(path) - 1, r["mismatch"] if on_edge else None, verd,
                     W._script(nodes, path) if (on_edge or verd or len(out) < 2) else None,
-                    (nodes[v]["last"]["op"], nodes[v]["last"]["res"]), r["log"] if (on_edge or verd) else None))
+                    (nodes[v]["last"]["op"], nodes[v]["last"]["res"]), r["log"] if (on_edge or verd) else None,
+                    _init_plain(nodes[path[0]]) if (on_edge or verd) else None))
     return out
 
 
@@ -518,7 +531,7 @@ def _cfg_text(cfg, uni, invariants, properties):
         "Projects": tlc.lit(set(cfg.projects)), "Keys": tlc.lit(set(uni.keys)), "Vals": tlc.lit(set(uni.vals)),
         "Handles": tlc.lit({"c"}), "DocVals": tlc.lit(set(cfg.docvals)), "FileNames": tlc.lit(set(cfg.files)),
         "FVals": tlc.lit(set(cfg.fvals)), "MaxDepth": cfg.depth, "IdOrder": "<- IdOrderDef", "Ops": "<- OpsDef",
-        "InitJobs": "<- InitJobsDef", "InitCache": "<- InitCacheDef",
+        "InitJobs": "<- InitJobsDef", "InitCache": "<- InitCacheDef", "FixedD3": tlc.lit(W.probe_d3()), "FixedD4": tlc.lit(W.probe_d4()),
     }
     return tlc.cfg(consts, init="Init", next="CliNext", invariants=invariants, properties=properties, constraints=["Depth"])
 
@@ -540,7 +553,8 @@ def run(ctx, pid, workers=16):
             trace = [s for _, s in r.violation["trace"]]
             out = replay_behaviour(uni, cfg.projects, trace, rules, damaging, ctx.work)
             script = [dict(op=s["last"]["op"], args=W._plain(s["last"]["args"]), res=s["last"]["res"]) for s in trace[1:]]
-            rep = {"front": "cli", "config": cfg.name, "spelling": cfg.spelling, "keys": list(cfg.keys), "vals": list(cfg.vals), "projects": list(cfg.projects), "script": script}
+            rep = {"front": "cli", "config": cfg.name, "spelling": cfg.spelling, "keys": list(cfg.keys), "vals": list(cfg.vals), "projects": list(cfg.projects),
+                   "init": _init_plain(trace[0]), "script": script}
             if out["verdicts"]:
                 for (k, sig, what) in out["verdicts"]:
                     ctx.violation(sig, what, dict(rep, step=k))
@@ -558,10 +572,11 @@ def run(ctx, pid, workers=16):
         _G.clear()
         os.remove(dot)
         ops = collections.Counter()
-        for (steps, mismatch, verd, script, (op, res), log) in flat:
+        for (steps, mismatch, verd, script, (op, res), log, init0) in flat:
             ctx.count(("cli-edge", cfg.name, op, res), n=1, traces=1)
             ops[(op, res)] += 1
-            rep = {"front": "cli", "config": cfg.name, "spelling": cfg.spelling, "keys": list(cfg.keys), "vals": list(cfg.vals), "projects": list(cfg.projects), "script": script}
+            rep = {"front": "cli", "config": cfg.name, "spelling": cfg.spelling, "keys": list(cfg.keys), "vals": list(cfg.vals), "projects": list(cfg.projects),
+                   "init": init0, "script": script}
             for (k, sig, what) in verd:
                 ctx.violation(sig, what + (" | last commands: %s" % (log,) if log else ""), dict(rep, step=k))
             if mismatch:
@@ -577,7 +592,7 @@ def run(ctx, pid, workers=16):
             raise core.MachineryError("command line configuration %s never executed: %s" % (cfg.name, missing))
         ctx.cov.setdefault("edge_cover", []).append({"config": cfg.name, "front": "command line (signac.__main__.main in a child process)", "edges_in_graph": total,
                                                      "edges_replayed": len(flat), "states": len(nodes), "exhaustive": len(flat) == total, "distinct_op_outcomes": len(ops)})
-        ex = sorted((s for (_, m, v, s, _, _) in flat if s and not m and not v), key=lambda sc: -len(sc))
+        ex = sorted((s for (_, m, v, s, _, _, _) in flat if s and not m and not v), key=lambda sc: -len(sc))
         if ex:
             ctx.sample({"config": cfg.name, "kind": "edge of the command-level state graph executed through the real entry point", "script": ex[0]}, cap=8)
     selftest(ctx)
@@ -613,6 +628,8 @@ def replay_script(ctx, data):
     from .wsfamily import _thaw
     w = CliWorld(uni, tuple(data.get("projects", ["P"])), base=ctx.work)
     try:
+        if data.get("init"):
+            w.materialise(_init_thaw(data["init"]))
         for s in data["script"]:
             res, val = w.do({"op": s["op"], "args": _thaw(s["args"]), "res": s["res"]})
             print("%-18s %-60s -> %s %s (model: %s)" % (s["op"], str(s["args"])[:60], res, sorted(map(str, val)), s["res"]))
